@@ -199,20 +199,35 @@ func refLineCol(buf string, pos int) (line, col int) {
 	return
 }
 
+// gutter splits an excerpt line "<blanks><digits><blanks><separator><text>" (separator one of | : >) into the line
+// number and the text; ok is false for lines without a line-number gutter. The layout around the number is free.
+func gutter(l string) (num int, text string, ok bool) {
+	t := strings.TrimLeft(l, " \t")
+	j := 0
+	for j < len(t) && t[j] >= '0' && t[j] <= '9' {
+		j++
+	}
+	if j == 0 {
+		return 0, "", false
+	}
+	k := j
+	for k < len(t) && (t[k] == ' ' || t[k] == '\t') {
+		k++
+	}
+	if k >= len(t) || !(t[k] == '|' || t[k] == ':' || t[k] == '>') {
+		return 0, "", false
+	}
+	n, _ := strconv.Atoi(t[:j])
+	return n, t[k+1:], true
+}
+
 // numberedLines extracts (number, text) of the lines of an excerpt that start with a line number.
 func numberedLines(src string) (nums []int, texts []string) {
 	for _, l := range strings.Split(src, "\n") {
-		t := strings.TrimLeft(l, " ")
-		j := 0
-		for j < len(t) && t[j] >= '0' && t[j] <= '9' {
-			j++
+		if n, text, ok := gutter(l); ok {
+			nums = append(nums, n)
+			texts = append(texts, text)
 		}
-		if j == 0 || j >= len(t) || t[j] != '|' {
-			continue
-		}
-		n, _ := strconv.Atoi(t[:j])
-		nums = append(nums, n)
-		texts = append(texts, t[j+1:])
 	}
 	return
 }
@@ -221,12 +236,7 @@ func numberedLines(src string) (nums []int, texts []string) {
 // (no letters, digits or non-ASCII bytes); "" if there is none.
 func unquotedContent(src string) string {
 	for _, l := range strings.Split(src, "\n") {
-		t := strings.TrimLeft(l, " ")
-		j := 0
-		for j < len(t) && t[j] >= '0' && t[j] <= '9' {
-			j++
-		}
-		if j > 0 && j < len(t) && t[j] == '|' {
+		if _, _, ok := gutter(l); ok {
 			continue
 		}
 		// a marker line carries no letters, digits or non-ASCII bytes (whatever symbols the layout uses)
